@@ -86,6 +86,10 @@ type worldCase struct {
 	Options struct {
 		Affinity    bool   `json:"affinity"`
 		DefaultMode string `json:"default_mode"`
+		// ListOrder: the order of the lists the controllers read (an informer cache returns no particular order; the
+		// fake client sorts by name): 0 = by name, otherwise reversed. (Reversal commutes with the filtering of a
+		// list by namespace or labels, so the snapshot given to the model is simply reversed as well.)
+		ListOrder int `json:"list_order"`
 	} `json:"options"`
 	// Global: one fault at the K-th write issued by the reconciles of the whole case:
 	// kind reject | lost | stop_before | stop_after
@@ -186,6 +190,17 @@ type world struct {
 	// of settings are therefore re-decoded from the text (see verbatim).
 	rawMu          sync.Mutex
 	rawSettingSpec map[string]json.RawMessage
+}
+
+// permute: the list reversed
+func permute[T any](in []T, _ int) []T {
+	n := len(in)
+	out := make([]T, 0, n)
+	for i := n - 1; i >= 0; i-- {
+		out = append(out, in[i])
+	}
+
+	return out
 }
 
 func (w *world) rememberRaw(raw json.RawMessage) {
@@ -479,6 +494,16 @@ func (w *world) build(objs []client.Object) {
 			if sl, ok := list.(*v1alpha1.ExtendedDaemonsetSettingList); ok && err == nil {
 				for i := range sl.Items {
 					w.verbatim(&sl.Items[i])
+				}
+			}
+			if k := w.opts.Options.ListOrder; k > 0 && err == nil {
+				switch l := list.(type) {
+				case *corev1.PodList:
+					l.Items = permute(l.Items, k)
+				case *corev1.NodeList:
+					l.Items = permute(l.Items, k)
+				case *v1alpha1.ExtendedDaemonSetReplicaSetList:
+					l.Items = permute(l.Items, k)
 				}
 			}
 
